@@ -242,8 +242,11 @@ def summarise(prop, tier, seed, eng, recs, bad, t0, tmpdir, a):
         nviol += 1
         r, v = hits[0]
         if nviol > a.max_minimise:
-            lines.append(f"VIOLATION property={prop} replay=- sig={sig} (not minimised; {len(hits)} runs)")
             exit_code = 1
+            if nviol <= a.max_minimise + 20:
+                lines.append(f"VIOLATION property={prop} replay=- sig={sig} (not minimised; {len(hits)} runs)")
+            elif nviol == a.max_minimise + 21:
+                lines.append(f"VIOLATION property={prop} replay=- (further signatures not listed; see the evidence file)")
             continue
         replay, err = minimised[sig]
         if replay is None:
